@@ -3,6 +3,7 @@ module verifsim
 go 1.25.0
 
 require (
+	connectrpc.com/connect v1.19.1
 	github.com/anishathalye/porcupine v1.3.0
 	github.com/yorkie-team/yorkie v0.0.0
 	go.uber.org/zap v1.27.1
@@ -10,7 +11,6 @@ require (
 )
 
 require (
-	connectrpc.com/connect v1.19.1 // indirect
 	connectrpc.com/grpchealth v1.4.0 // indirect
 	filippo.io/edwards25519 v1.1.0 // indirect
 	github.com/beorn7/perks v1.0.1 // indirect
